@@ -20,6 +20,8 @@ def set_repo(path):
     REPO[0] = path
 
 _MJ_ENUM = {}
+CALL_STACK = []
+SINGULAR = []
 NAMEDTUPLES = set()
 _PROTO = [0]
 # numeric constants of the MuJoCo C API (mjmodel.h)
@@ -1395,6 +1397,10 @@ ANGLES = []    # field mode: (sin image, cos image, angle value) of angles known
 
 def _arctan2(y, x):
     y, x = Rat.lift(y), Rat.lift(x)
+    if y.is_zero() and x.is_zero():
+        # arctan2 at the origin: the value is 0 by convention, the derivative is 0/0 -- NaN in autodiff even when the result
+        # is masked out afterwards (0 * NaN).  Recorded as an interpreter event (C03 R3.8)
+        SINGULAR.append(('arctan2(0, 0)', tuple(CALL_STACK[-3:])))
     if FIELD['on']:
         P_ = FIELD['p']
         for S, C, th in ANGLES:
@@ -2875,6 +2881,8 @@ class Interp:
         self.depth += 1
         if self.depth > 40:
             raise OutOfFragment('depth')
+        if isinstance(c.node, ast.FunctionDef):
+            CALL_STACK.append('%s.%s' % (c.mod, c.name or c.node.name))
         try:
             node = c.node
             env = {'v': {}, 'p': c.env}
@@ -2923,6 +2931,8 @@ class Interp:
                 return env['v']['__yield__'] if is_gen else r.v
             return env['v']['__yield__'] if is_gen else None
         finally:
+            if isinstance(c.node, ast.FunctionDef):
+                CALL_STACK.pop()
             self.depth -= 1
 
     # --- statements
